@@ -152,6 +152,34 @@ def compare(child, flat, values, classes_chain, label):
     elif ja[0] == "ok" and not json_eq(alpha(ja[1]), alpha(jb[1])):
         fails.append({"sub": "json", "kind": "child-schema-differs-from-flat",
                       "detail": [canon(alpha(ja[1]))[:500], canon(alpha(jb[1]))[:500]], "when": label})
+    # the other serialiser: the module generated for the child, executed on its own, declares a class that is
+    # the flat class (equality ignores class names) and judges the values alike
+    py = observe.ser_python(child)
+    if py[0] != "ok":
+        fails.append({"sub": "python", "kind": "child-serialize-python-" + ":".join(map(str, py[:2])), "when": label})
+    else:
+        from props.c07_defaults_descriptions import exec_module
+
+        ns, problem = exec_module(py[1])
+        gen = ns.get(child.__name__) if ns is not None else None
+        if problem or gen is None:
+            fails.append({"sub": "python", "kind": "child-module-does-not-execute:" + str((problem or {}).get("kind", "class-missing")),
+                          "when": label, "text": py[1][-500:]})
+        else:
+            try:
+                same = (gen == flat) and (flat == gen)
+            except Exception as exc:  # noqa: BLE001
+                same = "raised " + type(exc).__name__
+            if same is not True:
+                fails.append({"sub": "python", "kind": "generated-child-differs-from-flat", "when": label,
+                              "generated": gen.python()[:400], "flat": flat.python()[:400]})
+            else:
+                for value in values[:6]:
+                    a, b = observe.verdict(gen, value), observe.verdict(flat, value)
+                    if a[0] != b[0]:
+                        fails.append({"sub": "python", "kind": f"generated-child-{a[0]}-flat-{b[0]}", "value": value,
+                                      "when": label})
+                        break
     return fails, n_ok, n_rej
 
 
